@@ -19,6 +19,17 @@
 //	rematch <flags> <pat> <src> <patok> <matches>
 //	rereplace <flags> <pat> <kind> <repl> <src> <patok> <matches> <names> <nameRunes>
 //
+//	awk <flags> <sep> <cb> <items> <patok> <matchlists>
+//	                                 re:awk &sep=$sep (&sep-posix/&sep-longest from flags p/g) <callback cb> $items;
+//	                                 items: s<hex> | k<kind> separated by "|"; matchlists: for every string item
+//	                                 the separator's matches on strings.Trim(item, " \t"), separated by "|"
+//	reset [hist]                     a fresh Evaler (start of a history; "hist" marks a history-independence group)
+//
+// The property is stateful only in this sense: ONE Evaler (and one process) runs all
+// ops between two resets, so anything an op leaves behind (a pattern cache, a mutated
+// shared *Regexp) is visible to the later ones, while the model side of every op is a
+// function of its op line alone (C41_driver_history_independent).
+//
 // <matches> is Go's own FindAllSubmatchIndex(src, -1) for the pattern compiled
 // with the same flags (p = posix, g = longest, l = literal, "_" = none): the
 // abstract engine of the Lean model is instantiated by replaying it.
@@ -42,7 +53,32 @@ import (
 
 func init() { common.Register("C41", run) }
 
-type state struct{ ev *eval.Evaler }
+type state struct {
+	ev *eval.Evaler
+	// capPresent: str:repeat rejects results above its documented maximum (fixes/C41-repeat-size-cap.patch).
+	// Without the cap, ops asking for a huge (non-overflowing) result are NOT run: they would allocate it.
+	capPresent bool
+}
+
+func newEvaler() *eval.Evaler {
+	ev := evalutil.NewEvaler()
+	if r := evalutil.Eval(ev, "use str; use re", nil); r.Err != nil {
+		panic(r.Err)
+	}
+	return ev
+}
+
+// probeCap runs the one huge str:repeat that cannot allocate anything on any platform
+// (makeslice panics before touching memory) and looks at how it ends.
+func probeCap(ev *eval.Evaler) (present bool) {
+	defer func() {
+		if recover() != nil {
+			present = false
+		}
+	}()
+	r := evalutil.Eval(ev, "str:repeat '~' 9223372036854775807", nil)
+	return r.Err != nil && strings.HasPrefix(fmtErr(r.Err), "EXC BV|n|small enough for the result")
+}
 
 func run(c *common.Ctx) error {
 	s := &common.Std{
@@ -50,13 +86,14 @@ func run(c *common.Ctx) error {
 			"cutsets, counts (incl. negative, zero, larger than the number of pieces, and products around 2^63/2^64 for repeat), code point " +
 			"and byte lists around every range boundary, patterns from a small regex grammar (literals, classes, groups, optional groups, " +
 			"alternations where leftmost-first ≠ leftmost-longest, empty matches, anchors, named groups, invalid patterns) × posix/longest, " +
-			"replacement templates ($n, ${n}, $name, $$, malformed) and replacement functions (ok, wrong arity, wrong type, failing); " +
+			"replacement templates ($n, ${n}, $name, $$, malformed; random pieces and normal token lists rendered by the grammar) and " +
+			"replacement functions (ok, wrong arity, wrong type, failing); re:awk (separators × posix/longest, non-string inputs, callbacks that " +
+			"continue/break/fail); history groups (one pattern used by find/split/match/replace/awk with and without &longest/&posix in both " +
+			"orders on one Evaler, a fresh Evaler at every reset); " +
 			"every op evaluated by a real eval.Evaler; non-trivial = tag non-empty; distinct by op line",
 		NewState: func(c *common.Ctx) any {
-			st := &state{ev: evalutil.NewEvaler()}
-			if r := evalutil.Eval(st.ev, "use str; use re", nil); r.Err != nil {
-				panic(r.Err)
-			}
+			st := &state{ev: newEvaler()}
+			st.capPresent = probeCap(st.ev)
 			return st
 		},
 		Gen:      gen,
@@ -251,8 +288,16 @@ func impl(st *state, f []string) string {
 		return st.evalLine("str:join $sep [(str:split &max="+f[1]+" $sep $s)]", map[string]any{"sep": u(f[2]), "s": u(f[3])})
 	case "replace":
 		return st.evalLine("str:replace &max="+f[1]+" $old $new $s", map[string]any{"old": u(f[2]), "new": u(f[3]), "s": u(f[4])})
+	case "reset":
+		st.ev = newEvaler()
+		return "RESET"
 	case "repeat":
+		if !st.capPresent && hugeRepeat(u(f[1]), f[2]) {
+			return "UNCAPPED-NOT-RUN"
+		}
 		return st.evalLine("str:repeat $s "+f[2], map[string]any{"s": u(f[1])})
+	case "awk":
+		return st.evalAwk(f)
 	case "to-cp":
 		return st.evalLine("str:to-codepoints $s", map[string]any{"s": u(f[1])})
 	case "from-cp":
@@ -297,6 +342,74 @@ func impl(st *state, f []string) string {
 		return st.evalLine("str:"+f[0]+" $a $b", map[string]any{"a": u(f[1]), "b": u(f[2])})
 	}
 	return "bad-op"
+}
+
+// hugeRepeat: would str:repeat, without a result-size cap, try to allocate more than 10^6 bytes?
+func hugeRepeat(s, n string) bool {
+	k, ok := new(big.Int).SetString(n, 10)
+	if !ok || k.Sign() < 0 {
+		return false
+	}
+	prod := new(big.Int).Mul(big.NewInt(int64(len(s))), k)
+	return prod.Cmp(big.NewInt(1000000)) > 0 && prod.Cmp(big.NewInt(9223372036854775807)) <= 0
+}
+
+var awkCbs = map[string]string{
+	"put":  "{|@a| put $a }",
+	"cont": "{|@a| put $a; continue }",
+	"mix":  "{|@a| put $a; if (> (count $a) 1) { if (eq $a[1] x) { break } elif (eq $a[1] c) { fail boom } elif (eq $a[1] a) { continue } } }",
+	"fail": "{|@a| put $a; fail boom }",
+}
+
+func decodeAwkItems(s string) []any {
+	var out []any
+	if s == "-" {
+		return out
+	}
+	for _, it := range strings.Split(s, "|") {
+		if it[0] == 's' {
+			out = append(out, common.Unhex(it[1:]))
+		} else {
+			out = append(out, decodeItems(it)[0])
+		}
+	}
+	return out
+}
+
+// evalAwk prints "AWK c:<args,…> … OK|EXC <err>": the argument list of every callback
+// invocation (the callback puts it) and how re:awk ended.
+func (st *state) evalAwk(f []string) string {
+	o := ""
+	if strings.Contains(f[1], "p") {
+		o += " &sep-posix"
+	}
+	if strings.Contains(f[1], "g") {
+		o += " &sep-longest"
+	}
+	evalutil.SetVars(st.ev, map[string]any{"sep": common.Unhex(f[2]), "items": vals.MakeList(decodeAwkItems(f[4])...)})
+	r := evalutil.Eval(st.ev, "re:awk &sep=$sep"+o+" "+awkCbs[f[3]]+" $items", nil)
+	if r.Err != nil && fmtErr(r.Err) == "EXC bad-pattern" && len(r.Values) == 0 {
+		return "EXC bad-pattern"
+	}
+	toks := []string{"AWK"}
+	for _, v := range r.Values {
+		var args []string
+		if err := vals.Iterate(v, func(x any) bool {
+			if s, ok := x.(string); ok {
+				args = append(args, common.Hex(s))
+			} else {
+				args = append(args, "?"+vals.Kind(x))
+			}
+			return true
+		}); err != nil {
+			args = append(args, "?"+vals.Kind(v))
+		}
+		toks = append(toks, "c:"+strings.Join(args, ","))
+	}
+	if r.Err != nil {
+		return strings.Join(toks, " ") + " " + fmtErr(r.Err)
+	}
+	return strings.Join(toks, " ") + " OK"
 }
 
 // negative literal numbers as arguments start with "-": elvish reads "-3" as the string -3,
@@ -432,7 +545,130 @@ func randFlags(r *common.Rand, literalToo bool) string {
 	return fl
 }
 
-func gen(c *common.Ctx, emit func(...string)) {
+// ---- templates from the grammar ------------------------------------------------------------
+//
+// A template is a list of tokens (lean/ElvModel/C41/Template.lean): text without "$", "$$", a raw
+// "$", "$name", "${name}".  genTemplate builds a NORMAL list (NormalToks) by construction and
+// renders it; C41_re_replace_template_grammar says what re:replace must do with it.
+
+var tmplNames = []string{"1", "2", "3", "0", "10", "01", "n", "w", "1x", "n_", "é1", "_", "123456789", "1234567890", "世", "9"}
+
+// texts that may follow anything (they start with a byte that is no name rune, not "{" and not "$")
+var tmplTexts = []string{"-", " ", "-x", "<", ">", ".1", "}", "-é", "\xff", "-{n}"}
+
+// texts that start with a name rune or "{" (only after "$$", "${name}" or at the start)
+var tmplNameTexts = []string{"x", "1", "n", "é", "_", "{", "{1}", "x-"}
+
+func genTemplate(r *common.Rand) string {
+	var sb strings.Builder
+	prev := "start" // start | lit | dollar | raw | ref | bref
+	for k := r.Range(1, 5); k > 0; k-- {
+		switch choice := r.Intn(10); {
+		case choice < 3 && prev != "lit": // text
+			if (prev == "start" || prev == "dollar" || prev == "bref") && r.Chance(1, 2) {
+				sb.WriteString(common.Pick(r, tmplNameTexts))
+			} else {
+				sb.WriteString(common.Pick(r, tmplTexts))
+			}
+			prev = "lit"
+		case choice < 4 && prev != "raw":
+			sb.WriteString("$$")
+			prev = "dollar"
+		case choice < 5 && prev != "raw": // raw "$": must be followed by a text of tmplTexts or the end
+			sb.WriteString("$")
+			if k > 1 {
+				sb.WriteString(common.Pick(r, []string{"-", " ", "}", "<"}))
+				k--
+				prev = "lit"
+			} else {
+				prev = "raw"
+			}
+		case choice < 8 && prev != "raw":
+			sb.WriteString("${" + common.Pick(r, tmplNames) + "}")
+			prev = "bref"
+		case prev != "raw": // "$name": the next token must not continue the name
+			sb.WriteString("$" + common.Pick(r, tmplNames))
+			if k > 1 && r.Chance(1, 2) {
+				sb.WriteString(common.Pick(r, []string{"-", " ", "}", "<", ".1"}))
+				k--
+				prev = "lit"
+			} else {
+				prev = "ref"
+			}
+			// after "ref" only "$…" tokens or a tmplTexts text follow: enforced by the prev checks above
+			if prev == "ref" && k > 1 {
+				sb.WriteString(common.Pick(r, []string{"$$", "${1}", "${n}", "-"}))
+				k--
+				prev = "bref"
+			}
+		}
+	}
+	return sb.String()
+}
+
+// ---- re:awk ------------------------------------------------------------------------------------
+
+var awkSeps = []string{"[ \t]+", " ", " +", ",", "", "a|ab", "(a|ab)(c|bcd)", "x*", ", *", "[", "\\s+", "b?", "q(r|rs)"}
+
+var awkLineAlphabet = []string{"a", "b", "c", "x", " ", " ", "\t", ",", "ab", "abcd", "qrs", "é", "\xff", "y"}
+
+// awkFields returns patok and, for every string item, the separator's matches on the trimmed item.
+func awkFields(sep, flags string, items []string) (patok, mss string) {
+	re, err := compileLike(sep, flags)
+	if err != nil {
+		return "0", "-"
+	}
+	var ps []string
+	for _, it := range items {
+		if it[0] != 's' {
+			continue
+		}
+		t := strings.Trim(common.Unhex(it[1:]), " \t")
+		ps = append(ps, matchesField(re.FindAllSubmatchIndex([]byte(t), -1)))
+	}
+	if len(ps) == 0 {
+		return "1", "-"
+	}
+	return "1", strings.Join(ps, "|")
+}
+
+func genAwk(r *common.Rand, sep, flags string) []string {
+	var items []string
+	for k := r.Range(0, 5); k > 0; k-- {
+		switch {
+		case r.Chance(1, 12):
+			items = append(items, "k"+common.Pick(r, []string{"number", "list", "map", "bool", "nil"}))
+		case r.Chance(1, 8):
+			items = append(items, "s"+common.Hex(common.Pick(r, []string{"", " ", "\t ", "a", "x y", " c d", "a  b "})))
+		default:
+			items = append(items, "s"+common.Hex(randStr(r, 7, awkLineAlphabet)))
+		}
+	}
+	itf := "-"
+	if len(items) > 0 {
+		itf = strings.Join(items, "|")
+	}
+	ok, mss := awkFields(sep, flags, items)
+	return []string{"awk", flags, common.Hex(sep), common.Pick(r, []string{"put", "put", "mix", "mix", "mix", "cont", "fail"}), itf, ok, mss}
+}
+
+// ---- history groups ----------------------------------------------------------------------------
+
+// patterns whose matches depend on the flags (leftmost-first ≠ leftmost-longest, POSIX ≠ Perl)
+var histPats = []string{"a|ab", "(a|ab)(c|bcd)", "q(r|rs)", "(a+?)(b*)", "a*?", "x*|xy", "(|a)b?", "a+?", "(a|ab)(b*)", "[ \t]+|,"}
+
+var histAlphabet = []string{"a", "b", "c", "d", "ab", "abcd", "qrs", "q", "x", "xy", " ", ",", "é"}
+
+func gen(c *common.Ctx, emit0 func(...string)) {
+	// one Evaler runs everything between two resets; a reset at least every 100 ops keeps replays short
+	sinceReset := 0
+	emit := func(fields ...string) {
+		if sinceReset == 0 {
+			emit0("reset")
+		}
+		sinceReset = (sinceReset + 1) % 100
+		emit0(fields...)
+	}
 	r := c.Rand
 	h := common.Hex
 	it := strconv.Itoa
@@ -487,14 +723,15 @@ func gen(c *common.Ctx, emit func(...string)) {
 		emit("join", h(randStr(r, 2, alphabet)), f)
 	}
 	// ---- str:repeat -------------------------------------------------------------------
-	// DANGER: a huge product that does not overflow would be allocated.  Only products
-	// ≤ 10^6 or products that exceed MaxInt64 for real are generated.
+	// DANGER: a huge product below the cap of str:repeat (MaxInt32 bytes) would be allocated.  Only
+	// products ≤ 10^6 or products above the cap are generated; the latter are run by impl only if the
+	// cap is there (state.capPresent) — otherwise they print UNCAPPED-NOT-RUN.
 	emitRepeat := func(s string, n *big.Int) {
 		if !n.IsInt64() {
 			return
 		}
 		prod := new(big.Int).Mul(big.NewInt(int64(len(s))), n)
-		if n.Sign() >= 0 && prod.Cmp(big.NewInt(1000000)) > 0 && prod.Cmp(big.NewInt(9223372036854775807)) <= 0 {
+		if n.Sign() >= 0 && prod.Cmp(big.NewInt(1000000)) > 0 && prod.Cmp(big.NewInt(2147483647)) <= 0 {
 			return
 		}
 		emit("repeat", h(s), n.String())
@@ -509,6 +746,17 @@ func gen(c *common.Ctx, emit func(...string)) {
 			continue
 		}
 		l := big.NewInt(int64(len(s)))
+		// products just above the cap (just below is never generated: it would be allocated), and huge
+		// products that fit in an int: 2^31 … 2^62, MaxInt64/len
+		capQ := new(big.Int).Div(big.NewInt(2147483647), l)
+		for d := int64(1); d <= 3; d++ {
+			emitRepeat(s, new(big.Int).Add(capQ, big.NewInt(d)))
+		}
+		for _, sh := range []uint{31, 32, 33, 40, 47, 48, 49, 62} {
+			emitRepeat(s, new(big.Int).Div(new(big.Int).Lsh(big.NewInt(1), sh), l))
+			emitRepeat(s, new(big.Int).Lsh(big.NewInt(1), sh))
+		}
+		emitRepeat(s, new(big.Int).Div(big.NewInt(9223372036854775807), l))
 		// n around k·2^63/len and k·2^64/len: products just below/above the wrap points
 		for k := int64(1); k <= int64(len(s)); k++ {
 			for _, base := range []*big.Int{two63, two64} {
@@ -658,9 +906,62 @@ func gen(c *common.Ctx, emit func(...string)) {
 				emit("rereplace", fl, h(pat), "f", common.Pick(r, []string{"wrap", "wrap", "two", "none", "list", "num", "failb", "fail"}), h(src), ok, ms, names, "-")
 			default:
 				t := randStr(r, 3, templPieces)
+				if r.Chance(1, 2) {
+					t = genTemplate(r)
+				}
 				emit("rereplace", fl, h(pat), "s", h(t), h(src), ok, ms, names, nameRunes(t))
 			}
 		}
 	}
+	// ---- re:awk ------------------------------------------------------------------------------------
+	n = c.Scale(1500, 30000)
+	for i := 0; i < n; i++ {
+		emit(genAwk(r, common.Pick(r, awkSeps), randFlags(r, false))...)
+	}
+	// ---- history groups: one pattern, every flag combination, both orders, all builtins ---------------
+	groups := c.Scale(400, 8000)
+	c.Extra["history_groups"] = groups
+	flagSets := []string{"_", "g", "p", "pg"}
+	for g := 0; g < groups; g++ {
+		emit0("reset", "hist")
+		sinceReset = 1
+		pat := common.Pick(r, histPats)
+		// a random order of flag sets in which every set occurs, followed by a few random repeats:
+		// each pair (A then B) of different sets occurs in both orders over the run
+		order := append([]string{}, flagSets...)
+		for i := len(order) - 1; i > 0; i-- {
+			j := r.Range(0, i)
+			order[i], order[j] = order[j], order[i]
+		}
+		for k := r.Range(0, 3); k > 0; k-- {
+			order = append(order, common.Pick(r, flagSets))
+		}
+		for _, fl := range order {
+			src := randStr(r, 6, histAlphabet)
+			ok, ms, names := engineFields(pat, fl, src)
+			switch r.Intn(6) {
+			case 0, 1:
+				emit("find", fl, "-1", h(pat), h(src), ok, ms)
+			case 2:
+				emit("resplit", fl, it(common.Pick(r, []int{-1, -1, 2})), h(pat), h(src), ok, ms)
+			case 3:
+				fl2 := "_"
+				if strings.Contains(fl, "p") {
+					fl2 = "p"
+				}
+				ok2, ms2, _ := engineFields(pat, fl2, src)
+				emit("rematch", fl2, h(pat), h(src), ok2, ms2)
+				emit("find", fl, "-1", h(pat), h(src), ok, ms)
+			case 4:
+				if r.Chance(1, 2) {
+					emit("rereplace", fl, h(pat), "f", "wrap", h(src), ok, ms, names, "-")
+				} else {
+					t := common.Pick(r, []string{"<$0>", "[$1|$2]", "${1}-"})
+					emit("rereplace", fl, h(pat), "s", h(t), h(src), ok, ms, names, nameRunes(t))
+				}
+			case 5:
+				emit(genAwk(r, pat, fl)...)
+			}
+		}
+	}
 }
-
